@@ -566,6 +566,17 @@ def register(E):
         return kind_of(E, v.t)
     I['(reflect.Value).Kind'] = r_kind
 
+    KIND_NAMES = ['invalid', 'bool', 'int', 'int8', 'int16', 'int32', 'int64', 'uint', 'uint8', 'uint16', 'uint32', 'uint64',
+                  'uintptr', 'float32', 'float64', 'complex64', 'complex128', 'array', 'chan', 'func', 'interface', 'map',
+                  'ptr', 'slice', 'string', 'struct', 'unsafe.Pointer']
+
+    def r_kind_string(E, args):
+        k = E.conc_int(args[0], 64, False)
+        if 0 <= k < len(KIND_NAMES):
+            return KIND_NAMES[k].encode()
+        return b'kind' + str(k).encode()
+    I['(reflect.Kind).String'] = r_kind_string
+
     def kind_of(E, tid):
         u = E.types[tid].u
         if u.k == 'basic':
